@@ -1,6 +1,6 @@
 (* C07: resuming from a checkpoint reproduces the first run. *)
 From Coq Require Import List ZArith Bool.
-From DF Require Import Base.Str Base.Value IO.EJson IO.EJson_proofs IO.EJsonInst IO.JsonText IO.JsonText_proofs IO.JsonLine_proofs IO.Stream IO.Stream_proofs IO.StreamText_proofs IO.SortKeys IO.SortKeys_proofs.
+From DF Require Import Base.Str Base.Value IO.EJson IO.EJson_proofs IO.EJsonInst IO.JsonText IO.JsonText_proofs IO.JsonLine_proofs IO.Stream IO.Stream_proofs IO.StreamText_proofs IO.SortKeys IO.SortKeys_proofs IO.SortKeysRT_proofs.
 From Coq Require Import Permutation Sorted.
 Import ListNotations.
 Open Scope Z_scope.
@@ -153,6 +153,26 @@ Theorem C07_sorted_line_stable_under_rewriting : forall j, jnodup j ->
   jsort (jsort j) = jsort j /\ sorted_text (jsort j) = sorted_text j.
 Proof. intros j Hj. split; [apply jsort_idem; exact Hj | apply sorted_text_idem; exact Hj]. Qed.
 Print Assumptions C07_sorted_line_stable_under_rewriting.
+
+(* the tree actually written (keys sorted) reads back as the value with the members of every object in key order: the same
+   mapping at every depth, another order of keys at most (stream writes with sort_keys=True, unstream reads with the hook) *)
+Theorem C07_sorted_tree_reads_back_as_the_same_mapping :
+  forall K dec_str dec_parse time_str time_parse dt_str dt_parse date_str date_parse dur_str dur_parse,
+  (forall m e, dec_parse (dec_str m e) = Some (m, e)) ->
+  (forall h mi sc, time_parse (time_str h mi sc) = Some (h, mi, sc)) ->
+  (forall y mo d h mi sc, dt_parse (dt_str y mo d h mi sc) = Some (y, mo, d, h, mi, sc)) ->
+  (forall y mo d, date_parse (date_str y mo d) = Some (y, mo, d)) ->
+  (forall d sc us, dur_parse (dur_str d sc us) = Some (d, sc, us)) ->
+  str_nodup [k_dec K; k_time K; k_dt K; k_date K; k_dur K; k_set K] = true ->
+  forall v, ejson_ok K v = true ->
+  decode K dec_parse time_parse dt_parse date_parse dur_parse (jsort (encode K dec_str time_str dt_str date_str dur_str v)) = vsort v.
+Proof. exact sorted_roundtrip. Qed.
+Print Assumptions C07_sorted_tree_reads_back_as_the_same_mapping.
+
+Theorem C07_read_back_members_are_the_written_members : forall l : list (str * value),
+  Permutation (map (fun kv => (fst kv, vsort (snd kv))) l) (match vsort (VObj l) with VObj m => m | _ => [] end).
+Proof. exact vsort_same_members. Qed.
+Print Assumptions C07_read_back_members_are_the_written_members.
 
 Example C07_sort_keys_nonvacuous :
   let a := [([98], JInt 1); ([97], JObj [([122], JNull); ([65], JBool true)])] in
